@@ -653,6 +653,10 @@ func (r *Runtime) arrayproto_includes(call FunctionCall) Value {
 
 	if arr := r.checkStdArrayObjLen(o, length); arr != nil {
 		for _, val := range arr.values[n:] {
+			if val == _negativeZero {
+				// SameValueZero: -0 and +0 are the same
+				val = _positiveZero
+			}
 			if searchElement.SameAs(val) {
 				return valueTrue
 			}
@@ -663,6 +667,9 @@ func (r *Runtime) arrayproto_includes(call FunctionCall) Value {
 	for ; n < length; n++ {
 		idx := valueInt(n)
 		val := nilSafe(o.self.getIdx(idx, nil))
+		if val == _negativeZero {
+			val = _positiveZero
+		}
 		if searchElement.SameAs(val) {
 			return valueTrue
 		}
